@@ -20,6 +20,15 @@ package langserver
 //@   sweep C01 -nil
 //@   requires[cursor-in-text] len(contents) > 0 && 0 <= offset && offset < len(contents)
 //@ end
+// C05 / C13: the annotation lookup answers only for a cursor inside the ---@ comment; in front of it the line is code
+//@ func (*LspServer).handleAnnotateTypeDefine
+//@   props C05
+//@   at call AnnotateTypeDefine#0 before assert[cursor-is-inside-the-annotation-comment] posCharacter >= beginIndex
+//@ end
+//@ func (*LspServer).handleAnnotateHover
+//@   props C13
+//@   at call AnnotateTypeHover#0 before assert[cursor-is-inside-the-annotation-comment] comResult.pos.Character >= beginIndex
+//@ end
 
 //@ func (*LspServer).TextDocumentHover
 //@   props C01
@@ -149,6 +158,9 @@ package langserver
 //@ func (*LspServer).TextDocumentDidOpen
 //@   props C02
 //@   at call SetFileContent#0 before assert[open-stores-the-text-of-the-notification] streq(arg1, strFile) && view(arg2) == vs.TextDocument.Text
+// ... and it is the opened text that is analysed from then on, as after a didChange (until fix 985e2e7 the file on disk was)
+//@   at call HandleFileChangeAnalysis#0 before assert[C02,C08,opened-text-is-analysed] streq(arg1, strFile) && arg2 == contents && hits("SetFileContent#0") == 1
+//@   at call GetFileContent#0 before assert[C02,C08,opened-text-is-analysed] streq(arg1, strFile)
 //@ end
 //@ func (*LspServer).TextDocumentDidChange
 //@   props C02
@@ -156,6 +168,11 @@ package langserver
 //@   at call ApplyContentChanges#0 before assert[every-change-of-the-notification-is-applied-in-order] streq(arg1, strFile) && arg2 == contents && arg3 == vs.ContentChanges
 //@   at call SetFileContent#0 before assert[change-stores-the-result-of-the-edits] streq(arg1, strFile) && arg2 == changeContents && hits("ApplyContentChanges#0") == 1
 //@   at call GetFileContent#0 before assert[edits-apply-to-the-cached-text-of-that-document] streq(arg1, strFile)
+// the last sentence of the property: a change the server cannot apply is REPORTED (the handler returns the error) and the
+// stale copy is dropped - no later request is answered from it (until the fix: a log line, and business as usual)
+//@   ensures[an-edit-that-cannot-be-applied-is-reported-and-the-stale-copy-dropped] hits("ApplyContentChanges#0") == 1 && hits("SetFileContent#0") == 0
+//@        ==> nonnil(result) && hits("DelFileContent#0") == 1 && hits("RemoveCacheContent#0") == 1
+//@   at call DelFileContent#0 before assert[the-stale-copy-of-that-document-is-dropped] streq(arg1, strFile)
 //@ end
 //@ func (*LspServer).TextDocumentDidSave
 //@   props C02
@@ -164,6 +181,22 @@ package langserver
 //@ func (*LspServer).TextDocumentDidClose
 //@   props C02
 //@   at call DelFileContent#0 before assert[close-drops-the-cached-text-of-that-document] streq(arg1, strFile)
+//@ end
+// C08: after a close the client holds what the file on disk gets, its syntax errors included (fix 93fc2f9)
+//@ func (*LspServer).TextDocumentDidClose
+//@   props C08
+//@   at call SaveOneFilePushAgain#0 before assert[closed-file-gets-the-diagnostics-of-the-file-on-disk] streq(arg2, strFile)
+//@ end
+// C01: the saved text is optional in the protocol - a notification without it must not take the server down
+//@ func (*LspServer).TextDocumentDidSave
+//@   props C01
+//@   at call SetFileContent#0 before assert[the-text-is-dereferenced-only-when-there-is-one] vs.Text != nil
+//@ end
+// C08: a save of a file the project does not know (deleted by another program, written again by the save) enters as created
+//@ func (*LspServer).TextDocumentDidSave
+//@   props C08
+//@   at call HandleFileEventChanges#0 before assert[saved-file-enters-as-created-iff-the-project-does-not-know-it] len(arg1) == 1 && streq(arg1[0].StrFile, strFile)
+//@        && (arg1[0].Type == check.FileEventCreated <==> !lastresult("IsInAllFilesMap#0")) && (arg1[0].Type == check.FileEventChanged <==> lastresult("IsInAllFilesMap#0"))
 //@ end
 
 // ---- C14: the first-character pre-filter of completion candidates ----
